@@ -228,11 +228,18 @@ def cmd_run(a):
 
     # ---------------------------------------------------------- violations
     findings = core.load_findings()
+    _classify = world.classify
+
+    def safe_classify(prop_, trace_, v_):
+        try:
+            return _classify(prop_, trace_, v_)
+        except Exception:       # noqa - a classifier may never turn a violation into a harness error
+            return "%s/%s" % (v_["oracle"], v_["component"])
     known_hits = {}     # finding id -> [count, witness run]
     unknown = {}        # class -> list of (i, trace, v)
     for i, trace, vs in sorted(agg["viol"], key=lambda x: x[0]):
         for v in vs:
-            sig = world.classify(prop, trace, v)
+            sig = safe_classify(prop, trace, v)
             f = core.match_finding(findings, prop, sig)
             if f is not None:
                 e = known_hits.setdefault(f["id"], [0, i, f])
@@ -249,14 +256,14 @@ def cmd_run(a):
         # the minimiser must not slide from an unlisted violation into a listed
         # finding of the same class (and hide the former behind the latter)
         def not_listed(tr, vv):
-            return core.match_finding(findings, prop, world.classify(prop, tr, vv)) is None
+            return core.match_finding(findings, prop, safe_classify(prop, tr, vv)) is None
         mtrace, mv, tried = core.minimise(world, prop, trace, cls,
                                           budget=cfg.get("min_budget", 1500),
                                           time_budget=cfg.get("min_time_s", 60), accept=not_listed)
         if mv is None:
             harness_errors.append("violation of run %d (%s) did not reproduce in-process" % (i, cls))
             continue
-        sig = world.classify(prop, mtrace, mv)
+        sig = safe_classify(prop, mtrace, mv)
         rep = {"property": prop, "violation_class": list(cls), "violation": mv,
                "signature": sig, "seed": master, "run": i,
                "run_seed": core.run_seed(master, prop, i),
